@@ -153,4 +153,70 @@ theorem struct_balanced (kw name : Str) (t : TB) (hne : t.lines ≠ [])
     e1, Bool.false_eq_true, if_false, splitlines_single _ (by simp) hk]
   simp [splitlines_single (L "{") (by simp) (by decide), splitlines_single (L "};") (by simp) (by decide)]
 
+/-! ### descriptions the constructors refuse -/
+
+/-- **a rendered function description was accepted by the constructor's validation**: it has a name, a `virtual` one has
+    an owning struct/class, and a pure-specifier (`= 0…`) is only ever rendered on a virtual member function of an
+    owner — the combinations a C++ compiler would refuse are refused before anything is rendered -/
+theorem checked_function (f : Function) (p : Str × Str) (h : f.render = .ok p) :
+    f.name ≠ [] ∧ (f.pfx = .virtual → f.scope.isSome = true) ∧
+    ((L "0").isPrefixOf f.init = true → f.pfx = .virtual ∧ f.scope.isSome = true) ∧
+    p = (f.asDecl, f.asDef) := by
+  unfold Function.render Function.check at h
+  by_cases hn : f.name.isEmpty = true
+  · simp [hn, bind, Except.bind] at h
+  · by_cases hv : (f.pfx.isVirtual && f.scope.isNone) = true
+    · simp [hn, hv, bind, Except.bind] at h
+    · by_cases hz : ((L "0").isPrefixOf f.init && !f.pfx.isVirtual) = true
+      · simp [hn, hv, hz, bind, Except.bind] at h
+      · simp only [hn, hv, hz, Bool.false_eq_true, if_false, bind, Except.bind, pure, Except.pure] at h
+        injection h with h
+        have hname : f.name ≠ [] := by
+          intro e; apply hn; simp [e]
+        have hvs : f.pfx = .virtual → f.scope.isSome = true := by
+          intro e
+          cases hs : f.scope with
+          | none => exfalso; apply hv; simp [e, hs, FnPrefix.isVirtual]
+          | some _ => rfl
+        refine ⟨hname, hvs, ?_, h.symm⟩
+        intro h0
+        have : f.pfx = .virtual := by
+          cases hp : f.pfx with
+          | virtual => rfl
+          | member => exfalso; apply hz; simp [h0, hp, FnPrefix.isVirtual]
+          | static => exfalso; apply hz; simp [h0, hp, FnPrefix.isVirtual]
+        exact ⟨this, hvs this⟩
+
+/-- … and every refusal is the library's own error -/
+theorem refused_function (f : Function) (e : PyErr) (h : f.render = .error e) : e = .lib .CppGenError := by
+  unfold Function.render Function.check at h
+  by_cases hn : f.name.isEmpty = true
+  · simp [hn, bind, Except.bind] at h; exact h.symm
+  · by_cases hv : (f.pfx.isVirtual && f.scope.isNone) = true
+    · simp [hn, hv, bind, Except.bind] at h; exact h.symm
+    · by_cases hz : ((L "0").isPrefixOf f.init && !f.pfx.isVirtual) = true
+      · simp [hn, hv, hz, bind, Except.bind] at h; exact h.symm
+      · simp [hn, hv, hz, bind, Except.bind, pure, Except.pure] at h
+
+/-- a rendered constructor description never combines `= default/delete` with a member initialiser list; with
+    `asDef = []` for an initialised one (`initialised_no_def`) no member initialiser is ever rendered without a body -/
+theorem checked_constructor (c : Constructor) (p : Str × Str) (h : c.render = .ok p) :
+    (c.init = [] ∨ c.mil = []) ∧ p = (c.asDecl, c.asDef) := by
+  unfold Constructor.render Constructor.check at h
+  by_cases hb : (!c.init.isEmpty && !c.mil.isEmpty) = true
+  · simp [hb, bind, Except.bind] at h
+  · simp only [hb, Bool.false_eq_true, if_false, bind, Except.bind, pure, Except.pure] at h
+    injection h with h
+    refine ⟨?_, h.symm⟩
+    cases hi : c.init with
+    | nil => exact Or.inl rfl
+    | cons a t =>
+      cases hm : c.mil with
+      | nil => exact Or.inr rfl
+      | cons b u => exfalso; apply hb; simp [hi, hm]
+
+/-- the hypotheses are satisfiable: `virtual void f() = 0;` in struct S is rendered, `void f() = 0;` is refused -/
+example : ({ ret := { fqn := { ids := [L "void"] } }, name := L "f", pfx := .virtual, init := L "0", scope := some (L "S") } : Function).render.isOk = true := by decide
+example : ({ ret := { fqn := { ids := [L "void"] } }, name := L "f", init := L "0" } : Function).render.isOk = false := by decide
+
 end C20
